@@ -4,9 +4,9 @@ package interp
 // native implementation (bodies) used for replay; here the calls are intercepted by name.
 
 import (
-	"strconv"
 	"fmt"
 	"go/types"
+	"strconv"
 	"strings"
 )
 
@@ -17,6 +17,8 @@ type harnessState struct {
 	allocCands []int64
 	allocSites map[string]int
 	permMaps   map[*omap][]int
+	fps        map[string]*footprint
+	fpCur      *footprint
 }
 
 func (x *Explorer) resetHarnessState() {
@@ -24,6 +26,8 @@ func (x *Explorer) resetHarnessState() {
 	x.allocCands = nil
 	x.allocSites = map[string]int{}
 	x.permMaps = map[*omap][]int{}
+	x.fps = map[string]*footprint{}
+	x.fpCur = nil
 }
 
 // mapIter returns the iterator for a map; maps marked order-relevant are visited
@@ -68,7 +72,10 @@ func verifIntercept(name string) externalFn {
 	if i < 0 {
 		return nil
 	}
-	return verifFns[name[i+len(verifSuffix):]]
+	if f := verifFns[name[i+len(verifSuffix):]]; f != nil {
+		return f
+	}
+	return heapFns[name[i+len(verifSuffix):]]
 }
 
 var verifFns map[string]externalFn
